@@ -124,6 +124,22 @@ impl Pools {
 
     /// a structured random string: a few "themes" (pools) dominate so that rules interact
     pub fn string(&self, rng: &mut Rng, max_len: u64) -> String {
+        if rng.chance(1, 25) {
+            // repetition: a base, a long run of one character (counts around implementation limits such as 30/31/32), a tail
+            let mut s = String::new();
+            for _ in 0..rng.below(3) {
+                s.push(char::from_u32(self.draw(rng).1).unwrap_or('a'));
+            }
+            let c = char::from_u32(self.draw(rng).1).unwrap_or('a');
+            let n = *rng.pick(&[2u64, 3, 4, 5, 8, 16, 29, 30, 31, 32, 33, 40]);
+            for _ in 0..n {
+                s.push(c);
+            }
+            for _ in 0..rng.below(3) {
+                s.push(char::from_u32(self.draw(rng).1).unwrap_or('a'));
+            }
+            return s;
+        }
         let len = rng.below(max_len + 1);
         let themes: Vec<usize> = (0..1 + rng.below(3)).map(|_| self.draw(rng).0).collect();
         let mut s = String::new();
